@@ -37,6 +37,7 @@ import (
 	"github.com/bio-routing/bio-rd/routingtable"
 	"github.com/bio-routing/bio-rd/util/log"
 	"github.com/bio-routing/bio-rd/zzverif/vh"
+	"github.com/bio-routing/bio-rd/zzverif/vsync"
 )
 
 // ---------------------------------------------------------------------------
@@ -303,7 +304,12 @@ func zvC04OneName(n string) []string {
 // zvC04Client records every call of the RouteTableClient interface and keeps
 // the accumulated set: initial dump ∪ additions ∪ refreshed ∖ removals, per
 // prefix, set semantics, paths identified by attribute fingerprint.
+//
+// Like every real Loc-RIB client (Adj-RIB-Out, another Loc-RIB, the BMP/RIS tables) it serializes its
+// calls with a mutex of its own; under the controlled scheduler that makes every delivery to the client
+// a scheduling point, so a delivery made outside the Loc-RIB's lock can be overtaken by another thread.
 type zvC04Client struct {
+	mu    vsync.Mutex
 	Calls []zvC04Call
 	Have  []zvC04Held // one entry per prefix with a non-empty set
 }
@@ -365,6 +371,8 @@ func (c *zvC04Client) Held(pfx string) []string {
 }
 
 func (c *zvC04Client) AddPath(pfx *bnet.Prefix, p *route.Path) error {
+	c.mu.Lock()
+	defer c.mu.Unlock()
 	n := zvC04Name(p)
 	c.Calls = append(c.Calls, zvC04Call{"add", c.pfx(pfx), zvC04OneName(n)})
 	c.give(c.pfx(pfx), n)
@@ -372,6 +380,8 @@ func (c *zvC04Client) AddPath(pfx *bnet.Prefix, p *route.Path) error {
 }
 
 func (c *zvC04Client) AddPathInitialDump(pfx *bnet.Prefix, p *route.Path) error {
+	c.mu.Lock()
+	defer c.mu.Unlock()
 	n := zvC04Name(p)
 	c.Calls = append(c.Calls, zvC04Call{"dump", c.pfx(pfx), zvC04OneName(n)})
 	c.give(c.pfx(pfx), n)
@@ -379,6 +389,8 @@ func (c *zvC04Client) AddPathInitialDump(pfx *bnet.Prefix, p *route.Path) error 
 }
 
 func (c *zvC04Client) RemovePath(pfx *bnet.Prefix, p *route.Path) bool {
+	c.mu.Lock()
+	defer c.mu.Unlock()
 	n := zvC04Name(p)
 	c.Calls = append(c.Calls, zvC04Call{"remove", c.pfx(pfx), zvC04OneName(n)})
 	c.take(c.pfx(pfx), n)
@@ -386,12 +398,16 @@ func (c *zvC04Client) RemovePath(pfx *bnet.Prefix, p *route.Path) bool {
 }
 
 func (c *zvC04Client) ReplacePath(pfx *bnet.Prefix, old *route.Path, new *route.Path) {
+	c.mu.Lock()
+	defer c.mu.Unlock()
 	c.Calls = append(c.Calls, zvC04Call{"replace", c.pfx(pfx), []string{zvC04Name(old), zvC04Name(new)}})
 	c.take(c.pfx(pfx), zvC04Name(old))
 	c.give(c.pfx(pfx), zvC04Name(new))
 }
 
 func (c *zvC04Client) RefreshRoute(pfx *bnet.Prefix, ps []*route.Path) {
+	c.mu.Lock()
+	defer c.mu.Unlock()
 	call := zvC04Call{"refresh", c.pfx(pfx), nil}
 	for _, p := range ps {
 		call.Paths = append(call.Paths, zvC04Name(p))
@@ -400,8 +416,16 @@ func (c *zvC04Client) RefreshRoute(pfx *bnet.Prefix, ps []*route.Path) {
 	c.Calls = append(c.Calls, call)
 }
 
-func (c *zvC04Client) EndOfRIB() { c.Calls = append(c.Calls, zvC04Call{Kind: "eor"}) }
-func (c *zvC04Client) Dispose()  { c.Calls = append(c.Calls, zvC04Call{Kind: "dispose"}) }
+func (c *zvC04Client) EndOfRIB() {
+	c.mu.Lock()
+	defer c.mu.Unlock()
+	c.Calls = append(c.Calls, zvC04Call{Kind: "eor"})
+}
+func (c *zvC04Client) Dispose() {
+	c.mu.Lock()
+	defer c.mu.Unlock()
+	c.Calls = append(c.Calls, zvC04Call{Kind: "dispose"})
+}
 
 // Reset starts a new registration epoch (a client that registers begins with nothing).
 func (c *zvC04Client) Reset() { c.Have = nil }
